@@ -217,6 +217,9 @@ func routeFunc(id int) restful.RouteFunction {
 	}
 }
 
+// SelFilter is a recording filter (logs the selected route it sees, then passes control on).
+func SelFilter(where string) restful.FilterFunction { return selFilter(where) }
+
 func selFilter(where string) restful.FilterFunction {
 	return func(req *restful.Request, resp *restful.Response, chain *restful.FilterChain) {
 		if o := ObsOf(req.Request); o != nil {
